@@ -44,7 +44,9 @@ CLAIMED = {
          "list (formatItalics_balanced, see C05); after a caption with flat balanced spans no span is left open in the DFXP writer whatever styles have a "
          "rendering (no_span_left_open, dfxpText_flag, dfxp_span_closed); WebVTT closing tags are the opening tags in reverse order for all eight style "
          "combinations (vtt_tags_mirror); for every caption whose style nodes are properly nested, whatever layouts split it into cues, every cue the WebVTT "
-         "writer produces carries balanced, properly nested tags (vtt_cues_balanced: token machine proved to render to the writer model's strings, stack invariant). Execution: captions with 0-3 flat spans (single and combined styles, across breaks, adjacent, empty) through the "
+         "writer produces carries balanced, properly nested tags (vtt_cues_balanced: token machine proved to render to the writer model's strings, stack invariant); the SAMI reader's inline style: a span is italic / underlined / bold "
+         "after _translate_style exactly when it was before or some piece of the style attribute is that declaration, wherever it stands, hence the same for any "
+         "rearrangement of the declarations (sami_style_flags, sami_style_flags_any_order; model tied to the code by the driver op sami.inlinestyle). Execution: captions with 0-3 flat spans (single and combined styles, across breaks, adjacent, empty) through the "
          "DFXP/SAMI/WebVTT writers, both readers and all four DFXP<->SAMI directions; per-character (i,b,u) flags and tag balance are extracted by independent "
          "parsers; the writers' text functions are compared with the Lean models."),
    ref="§3 C11", technique="Lean 4 proof (mutual structural induction on trees, state invariants, case analysis) + per-character flag oracle + correspondence",
